@@ -515,6 +515,7 @@ def run(ctx):
         if r["events"]:
             traces.append(r["events"])
     validate_traces(ctx, traces)
+    validate_repo_tests(ctx)
     # binding self-test: a corrupted trace must be rejected
     if traces:
         bad = json.loads(json.dumps(traces[:3]))
@@ -532,6 +533,46 @@ def run(ctx):
 
                 raise Vacuity(f"binding self-test: {tampered} corrupted traces, only {mm} rejected")
             ctx.cov["selftest_corrupted_rejected"] = mm
+
+
+def validate_repo_tests(ctx):
+    """S3b: BondList calls made by the repository's own tests (bonds, atoms, filter), recorded
+    by a pytest plugin installed from outside and judged event by event by TLC."""
+    import subprocess
+
+    from harness.tlabind import tlc
+    from harness.tlabind.helpers import tlc_validate
+
+    d = tlc.scratch_dir("c02rec")
+    rec = os.path.join(d, "rec.json")
+    env = dict(os.environ, PYTHONPATH=tlc.VERIF + os.pathsep + os.environ.get("PYTHONPATH", ""),
+               C02_RECORD_FILE=rec)
+    tests = ["tests/structure/test_bonds.py", "tests/structure/test_atoms.py", "tests/structure/test_filter.py",
+             "tests/structure/test_molecules.py"]
+    subprocess.run(["/venv/bin/python", "-m", "pytest", "-q", "-p", "no:cacheprovider", "-p",
+                    "harness.recorders.c02_recorder"] + tests,
+                   cwd="/repo", env=env, stdout=subprocess.DEVNULL, stderr=subprocess.DEVNULL, timeout=900)
+    if not os.path.exists(rec):
+        ctx.note("repository-test recorder produced no file (pytest could not start); stage skipped")
+        return
+    with open(rec) as f:
+        data = json.load(f)
+    events = data["events"]
+    ctx.cov["repo_test_events"] = len(events)
+    ctx.cov["repo_test_events_skipped"] = data["skipped"]
+    if not events:
+        return
+    mms = tlc_validate(ctx, [events], module="TraceEv", cfg="TraceEv.cfg", stage="S3-repo-tests")
+    for m in mms:
+        _tag, _tid, l, flags, eoc, en, eB, eout = m
+        e = events[l - 1]
+        ctx.mismatch({"stage": "S3-repo-tests", "kind": "event", "op": e["op"], "a": e["a"],
+                      "n_before": e["pre"]["n"], "event": l, "flags_ok(oc,n,B,out,cache)": flags,
+                      "expected": {"oc": eoc, "n": en, "B": eB, "out": eout},
+                      "observed": {"oc": e["oc"], "n": e["n"], "B": e["bonds"], "out": e["out"]},
+                      "history": [["construct", [e["pre"]["n"], e["pre"]["bonds"]]], [e["op"], e["a"]]]})
+    ctx.traces_validated += 1
+    ctx.evaluations += len(events)
 
 
 def validate_traces(ctx, traces, selftest=False):
